@@ -53,9 +53,36 @@ pub fn catch<T>(f: impl FnOnce() -> T) -> Result<T, String> {
     }
 }
 
-/// Panics of the library are expected data; keep stderr quiet.
+static LAST_PANIC: std::sync::Mutex<Option<(String, String)>> = std::sync::Mutex::new(None);
+
+/// Panics of the library are expected data; keep stderr quiet, remember the last one.
 pub fn silence_panics() {
-    std::panic::set_hook(Box::new(|_| {}));
+    std::panic::set_hook(Box::new(|info| {
+        let loc = info.location().map(|l| format!("{}:{}", l.file(), l.line())).unwrap_or_default();
+        let msg = if let Some(s) = info.payload().downcast_ref::<&str>() {
+            s.to_string()
+        } else if let Some(s) = info.payload().downcast_ref::<String>() {
+            s.clone()
+        } else {
+            "panic".to_string()
+        };
+        if let Ok(mut g) = LAST_PANIC.lock() {
+            *g = Some((loc, msg));
+        }
+    }));
+}
+
+/// Run a harness command.  Every call into the library is supposed to sit inside `catch`; a
+/// panic that escapes anyway must not turn into a silent tool failure: it is reported on
+/// stderr as `ESCAPED-PANIC <location> <message>` with exit code 3, and the driver locates
+/// the case by bisection of the input.
+pub fn guarded_main(f: impl FnOnce() + std::panic::UnwindSafe) {
+    silence_panics();
+    if std::panic::catch_unwind(f).is_err() {
+        let (loc, msg) = LAST_PANIC.lock().ok().and_then(|g| g.clone()).unwrap_or_default();
+        eprintln!("ESCAPED-PANIC\t{loc}\t{}", msg.replace('\n', " "));
+        std::process::exit(3);
+    }
 }
 
 pub fn read_ndjson(path: &str) -> Vec<Value> {
